@@ -12,3 +12,7 @@ func VerifH_C03_rsa_pkcs1v15_verify_spec() { VerifH_C23_pkcs1v15_verify_spec() }
 
 // verif: covers=done
 func VerifH_C03_rsa_pss_encode_verifies() { VerifH_C23_pss_encode() }
+
+// C03: signatures of the wrong length are not genuine signatures (same harness as C23).
+// verif: covers=right-length,wrong-length
+func VerifH_C03_rsa_signature_length() { VerifH_C23_signature_length_is_modulus_length() }
